@@ -1,5 +1,5 @@
 (* C10 — no-unreachable never flags a statement that can execute.
-   Model: CF/Syntax.v (programs, `wf`, `no_fn_stmt`), CF/Analyzer.v (port of control_flow/mod.rs and of the
+   Model: CF/Syntax.v (programs, `wf`, `fn_stmt_safe`, `no_fn_stmt`), CF/Analyzer.v (port of control_flow/mod.rs and of the
    rules; `faithful` = the code before the fix commits, `current` = now (fixes A, B, D), `repaired` = `current`
    + the candidate repair of the known finding C), CF/Semantics.v (the specification: `exec`, `enters`,
    `prog_enters p pi` = some execution of the function body enters the statement at offset pi). *)
@@ -26,15 +26,41 @@ Theorem C10_analyzer_total : forall fx p,
 Proof. exact analyzer_total. Qed.
 Print Assumptions C10_analyzer_total.
 
-(* the current code, on programs in which no statement starts with a function *)
+(* the current code.  `fn_stmt_safe p`: no statement that STARTS with a function (`function g(){}`, `() => {};`) is a
+   branch of an if-else, the body of a while / do-while / for(;;) or a top-level statement of a switch case (function
+   declarations in ordinary statement lists are fine).  `prog_enters` counts the body of a hoisted function declaration
+   as enterable as soon as the enclosing statement list is entered. *)
 Theorem C10_sound_current : forall p pi,
-  wf p -> no_fn_stmt p -> In pi (no_unreachable current p) -> ~ prog_enters p pi.
+  wf p -> fn_stmt_safe p -> In pi (no_unreachable current p) -> ~ prog_enters p pi.
 Proof. exact SoundnessCurrent.C10_sound_current. Qed.
 Print Assumptions C10_sound_current.
+
+(* programs without any function-like satisfy the side condition, and on them the current code computes exactly the
+   map of the fully repaired code *)
+Theorem C10_no_fn_stmt_is_safe : forall p, no_fn_stmt p -> fn_stmt_safe p.
+Proof. exact no_fn_stmt_safe. Qed.
+Print Assumptions C10_no_fn_stmt_is_safe.
 
 Theorem C10_current_is_repaired_without_fn_stmt : forall p, no_fn_stmt p -> analyze current p = analyze repaired p.
 Proof. exact analyze_current_repaired. Qed.
 Print Assumptions C10_current_is_repaired_without_fn_stmt.
+
+(* hoisting, non-vacuity:  function f() { return v1(); function v1() { v2(); return 1; v3(); } }
+   `v2();` (44) inside the function declared after the `return` can be entered; `v3();` (60) is reported and cannot *)
+Definition ex_hoist : program :=
+  {| p_getter := false; p_start := 0; p_pb := 13;
+     p_body := SCons (SRet 15 (Some (ECall 1)))
+              (SCons (SFnDecl 28 1 42 (SCons (SExpr 44 (ECall 2)) (SCons (SRet 50 (Some ELit)) (SCons (SExpr 60 (ECall 3)) SNil)))) SNil) |}.
+Example C10_hoisting_example :
+  wf ex_hoist /\ fn_stmt_safe ex_hoist /\ ~ no_fn_stmt ex_hoist /\
+  prog_enters ex_hoist 44 /\ prog_enters ex_hoist 50 /\ ~ prog_enters ex_hoist 60 /\ ~ prog_enters ex_hoist 28 /\
+  no_unreachable current ex_hoist = [60].
+Proof.
+  split; [vm_compute; reflexivity|]. split; [vm_compute; reflexivity|]. split; [vm_compute; discriminate|].
+  split; [apply prog_enters_iff; vm_compute; reflexivity|]. split; [apply prog_enters_iff; vm_compute; reflexivity|].
+  split; [intros H; apply prog_enters_iff in H; vm_compute in H; discriminate|].
+  split; [intros H; apply prog_enters_iff in H; vm_compute in H; discriminate | vm_compute; reflexivity].
+Qed.
 
 (* with the candidate repair of the known finding: unconditional *)
 Theorem C10_sound_repaired : forall p pi,
@@ -45,7 +71,7 @@ Print Assumptions C10_sound_repaired.
 (* known finding, class C: a statement that starts with a function shares the function's map key
    (`if (v1) () => { throw 1; }; else () => { throw 1; }; v3();` flags `v3();`) *)
 Theorem C10_known_class_C :
-  exists p pi, wf p /\ ~ no_fn_stmt p /\ In pi (no_unreachable current p) /\ prog_enters p pi.
+  exists p pi, wf p /\ ~ fn_stmt_safe p /\ In pi (no_unreachable current p) /\ prog_enters p pi.
 Proof. exact SoundnessCurrent.C10_known_class_C. Qed.
 Print Assumptions C10_known_class_C.
 
